@@ -3,7 +3,7 @@ from __future__ import annotations
 
 import ast
 import itertools
-from typing import List, Optional
+from typing import Dict, List, Optional
 
 from ..boolean import Evaluator
 from ..core import AnalysisError, src
@@ -107,7 +107,7 @@ def obstacles(index: RepoIndex, rep, rule: str) -> None:
     rep.check(src(a0) == src(loop_t), rule, TRANS, 'move_obstacles', sw.line, src(call),
               f'the swap moves `{src(a0)}`, not the obstacle of this iteration', 'swap source')
     # destination C[i]
-    dest = w.expand(a1)
+    dest = a1
     cname = None
     if isinstance(a1, ast.Name):
         dd = [x for x in w.defs.get(a1.id, []) if x[0] == 'value']
@@ -190,18 +190,66 @@ def _boundary_args(call: ast.Call, loopvar: str) -> bool:
 
 
 def swap_exchange(index: RepoIndex, rep, rule: str) -> None:
+    """Grid.swap is decided by abstract interpretation of its straight-line body over a
+    two-cell store (cells self[p], self[q]; the cases p != q and p == q): at the end the two
+    cells hold each other's initial content"""
     f = index.func(GRID, 'Grid.swap')
-    from ..guards import walk_function
-    w = walk_function(f.node)
     p, q = [a.arg for a in f.node.args.args[1:3]]
-    st = [e for e in w.events if e.kind == 'store']
-    got = sorted((src(e.target), src(e.value)) for e in st)
-    same_stmt = len({id(e.stmt) for e in st}) == 1
-    rep.check(got == sorted([(f'self[{p}]', f'self[{q}]'), (f'self[{q}]', f'self[{p}]')])
-              and same_stmt, rule, GRID, 'Grid.swap', f.node.lineno,
-              '; '.join(src(e.stmt) for e in st),
-              'Grid.swap is not the simultaneous exchange `self[p], self[q] = self[q], self[p]` '
-              '(an object would be duplicated or lost)', 'swap is an exchange')
+    body = f.body()
+    verdicts = []
+    for same in (False, True):
+        cells = {p: 'P0', q: 'P0' if same else 'Q0'}
+        env: Dict[str, str] = {}
+
+        def cell_of(t):
+            if isinstance(t, ast.Subscript) and src(t.value) == 'self' and \
+                    isinstance(t.slice, ast.Name) and t.slice.id in (p, q):
+                return t.slice.id
+            return None
+
+        def read(e):
+            c = cell_of(e)
+            if c is not None:
+                return cells[c]
+            if isinstance(e, ast.Name) and e.id in env:
+                return env[e.id]
+            raise AnalysisError(f'Grid.swap: value `{src(e)}` outside the grammar')
+
+        def write(t, v):
+            c = cell_of(t)
+            if c is not None:
+                cells[c] = v
+                if same:
+                    cells[p] = cells[q] = v
+            elif isinstance(t, ast.Name):
+                env[t.id] = v
+            else:
+                raise AnalysisError(f'Grid.swap: target `{src(t)}` outside the grammar')
+        for st in body:
+            if isinstance(st, ast.Expr) and isinstance(st.value, ast.Constant):
+                continue
+            if isinstance(st, ast.AnnAssign) and st.value is not None:
+                write(st.target, read(st.value))
+                continue
+            if not (isinstance(st, ast.Assign) and len(st.targets) == 1):
+                raise AnalysisError(f'Grid.swap: statement `{src(st)[:60]}` outside the grammar')
+            t, v = st.targets[0], st.value
+            if isinstance(t, ast.Tuple) and isinstance(v, ast.Tuple) and \
+                    len(t.elts) == len(v.elts):
+                vals = [read(x) for x in v.elts]       # right-hand side first
+                for tt, vv in zip(t.elts, vals):
+                    write(tt, vv)
+            else:
+                write(t, read(v))
+        want = {p: 'P0', q: 'P0'} if same else {p: 'Q0', q: 'P0'}
+        verdicts.append((cells == want, same, dict(cells)))
+    bad = [v for v in verdicts if not v[0]]
+    rep.check(not bad, rule, GRID, 'Grid.swap', f.node.lineno,
+              '; '.join(src(st) for st in body if not isinstance(st, ast.Expr))[:200],
+              'Grid.swap is not an exchange of the two cells (an object would be duplicated or '
+              'lost): ' + '; '.join(
+                  f'with p {"==" if sm else "!="} q the cells end as {c}' for _, sm, c in bad),
+              'swap is an exchange')
 
 
 def boundary(index: RepoIndex, rep, rule: str) -> None:
@@ -211,22 +259,51 @@ def boundary(index: RepoIndex, rep, rule: str) -> None:
     for n in ast.walk(f.node):
         if isinstance(n, ast.GeneratorExp) or isinstance(n, ast.ListComp):
             if isinstance(n.elt, ast.Call) and src(n.elt.func) == 'Position' \
-                    and len(n.elt.args) == 2 and len(n.generators) == 1:
+                    and len(n.elt.args) == 2:
                 gens.append(n)
     cells = set()
+    env0 = {dp: 1, f'{pp}.y': 0, f'{pp}.x': 0}
+
+    def items(it: ast.AST, env):
+        if isinstance(it, ast.Call) and src(it.func) == 'range':
+            return list(range(*[int_ev(a, env) for a in it.args]))
+        if isinstance(it, ast.Name):
+            vals = f.module.assigns.get(it.id)
+            if vals and len(vals) == 1:
+                try:
+                    return list(ast.literal_eval(vals[0]))
+                except (ValueError, SyntaxError):
+                    pass
+        if isinstance(it, (ast.Tuple, ast.List)):
+            try:
+                return list(ast.literal_eval(it))
+            except (ValueError, SyntaxError):
+                pass
+        raise CannotEval(src(it))
+
+    def bind(t: ast.AST, v, env):
+        if isinstance(t, ast.Name):
+            env[t.id] = v
+        elif isinstance(t, (ast.Tuple, ast.List)) and isinstance(v, (tuple, list)) and \
+                len(v) == len(t.elts):
+            for tt, vv in zip(t.elts, v):
+                bind(tt, vv, env)
+        else:
+            raise CannotEval(src(t))
+
+    def enum(gnode, i, env):
+        if i == len(gnode.generators):
+            cells.add((int_ev(gnode.elt.args[0], env), int_ev(gnode.elt.args[1], env)))
+            return
+        g = gnode.generators[i]
+        for v in items(g.iter, env):
+            env2 = dict(env)
+            bind(g.target, v, env2)
+            if all(int_ev(c, env2) for c in g.ifs):
+                enum(gnode, i + 1, env2)
     try:
         for gnode in gens:
-            g = gnode.generators[0]
-            it = g.iter
-            if not (isinstance(it, ast.Call) and src(it.func) == 'range'):
-                raise CannotEval(src(it))
-            env0 = {dp: 1, f'{pp}.y': 0, f'{pp}.x': 0}
-            bounds = [int_ev(a, env0) for a in it.args]
-            for i in range(*bounds):
-                env = dict(env0)
-                env[src(g.target)] = i
-                if all(int_ev(c, env) for c in g.ifs):
-                    cells.add((int_ev(gnode.elt.args[0], env), int_ev(gnode.elt.args[1], env)))
+            enum(gnode, 0, dict(env0))
     except CannotEval as e:
         raise AnalysisError(f'get_manhattan_boundary outside the grammar: {e}')
     want = {(-1, 0), (0, 1), (1, 0), (0, -1)}
